@@ -207,3 +207,165 @@ pub mod query {
 
 /// Facade over the crate-private inbound packet filter.
 pub use crate::socket::verif::FilterFacade;
+
+/// Virtual network seam (H2-H4): when installed on the current thread, `Socket::new` creates no
+/// UDP I/O; the receive and send tasks exchange raw datagrams with the harness instead.
+pub mod net {
+    use enr::NodeId;
+    use parking_lot::RwLock;
+    use std::{cell::RefCell, collections::HashMap, net::SocketAddr, sync::Arc};
+    use tokio::sync::mpsc;
+
+    /// A datagram handed to a node: (source address, bytes).
+    pub type Inbound = (SocketAddr, Vec<u8>);
+    /// A datagram emitted by a node: (destination address, destination node id, bytes).
+    pub type Outbound = (SocketAddr, NodeId, Vec<u8>);
+
+    /// The harness's end of one node's virtual socket.
+    pub struct Endpoint {
+        pub node_id: NodeId,
+        pub listen: Vec<SocketAddr>,
+        pub to_node: mpsc::UnboundedSender<Inbound>,
+        pub from_node: mpsc::UnboundedReceiver<Outbound>,
+        /// The filter-exemption map shared between the handler and its receive task.
+        pub expected_responses: Arc<RwLock<HashMap<SocketAddr, usize>>>,
+    }
+
+    thread_local! {
+        static VNET: RefCell<Option<Vec<Endpoint>>> = const { RefCell::new(None) };
+    }
+
+    /// Installs the virtual network on this thread.
+    pub fn install() {
+        VNET.with(|v| *v.borrow_mut() = Some(Vec::new()));
+    }
+    /// Removes it again.
+    pub fn uninstall() {
+        VNET.with(|v| *v.borrow_mut() = None);
+    }
+    pub fn is_installed() -> bool {
+        VNET.with(|v| v.borrow().is_some())
+    }
+    /// Endpoints registered since the last call.
+    pub fn take_endpoints() -> Vec<Endpoint> {
+        VNET.with(|v| {
+            v.borrow_mut()
+                .as_mut()
+                .map(std::mem::take)
+                .unwrap_or_default()
+        })
+    }
+
+    pub(crate) fn register(
+        node_id: NodeId,
+        listen: Vec<SocketAddr>,
+        expected_responses: Arc<RwLock<HashMap<SocketAddr, usize>>>,
+    ) -> (
+        mpsc::UnboundedReceiver<Inbound>,
+        mpsc::UnboundedSender<Outbound>,
+    ) {
+        let (to_node, rx) = mpsc::unbounded_channel();
+        let (tx, from_node) = mpsc::unbounded_channel();
+        VNET.with(|v| {
+            if let Some(list) = v.borrow_mut().as_mut() {
+                list.push(Endpoint {
+                    node_id,
+                    listen,
+                    to_node,
+                    from_node,
+                    expected_responses,
+                });
+            }
+        });
+        (rx, tx)
+    }
+}
+
+/// One entry of the session-key log (H6): a session object was created on this thread.
+#[derive(Clone, Debug)]
+pub struct SessionKeys {
+    pub local: enr::NodeId,
+    pub remote: enr::NodeId,
+    /// true: created by the initiator of the handshake (the side answering a WHOAREYOU).
+    pub initiator: bool,
+    pub encryption_key: [u8; 16],
+    pub decryption_key: [u8; 16],
+}
+
+thread_local! {
+    static KEYLOG: RefCell<Vec<SessionKeys>> = const { RefCell::new(Vec::new()) };
+}
+
+pub(crate) fn log_session_keys(
+    local: &enr::NodeId,
+    remote: &enr::NodeId,
+    initiator: bool,
+    encryption_key: &[u8; 16],
+    decryption_key: &[u8; 16],
+) {
+    KEYLOG.with(|k| {
+        k.borrow_mut().push(SessionKeys {
+            local: *local,
+            remote: *remote,
+            initiator,
+            encryption_key: *encryption_key,
+            decryption_key: *decryption_key,
+        })
+    });
+}
+
+/// Takes (and clears) the session-key log of this thread.
+pub fn take_session_keys() -> Vec<SessionKeys> {
+    KEYLOG.with(|k| std::mem::take(&mut *k.borrow_mut()))
+}
+
+/// Scripted handler seam (H5): when armed on the current thread, the next `Handler::spawn`
+/// returns the harness's channels instead of starting a handler, so that a real `Service` can be
+/// driven by a harness that plays the handler.
+pub mod scripted {
+    use crate::handler::{HandlerIn, HandlerOut};
+    use std::cell::RefCell;
+    use tokio::sync::{mpsc, oneshot};
+
+    type HandlerReturn = (
+        oneshot::Sender<()>,
+        mpsc::UnboundedSender<HandlerIn>,
+        mpsc::Receiver<HandlerOut>,
+    );
+
+    /// The harness's ends of the service <-> handler channels.
+    pub struct Ends {
+        pub exit: oneshot::Receiver<()>,
+        pub from_service: mpsc::UnboundedReceiver<HandlerIn>,
+        pub to_service: mpsc::Sender<HandlerOut>,
+    }
+
+    thread_local! {
+        static SLOT: RefCell<Option<HandlerReturn>> = const { RefCell::new(None) };
+    }
+
+    /// Arms the seam and returns the harness's channel ends.
+    pub fn arm() -> Ends {
+        let (exit_tx, exit) = oneshot::channel();
+        let (handler_send, from_service) = mpsc::unbounded_channel();
+        let (to_service, handler_recv) = mpsc::channel(50);
+        SLOT.with(|s| *s.borrow_mut() = Some((exit_tx, handler_send, handler_recv)));
+        Ends {
+            exit,
+            from_service,
+            to_service,
+        }
+    }
+
+    pub(crate) fn take() -> Option<HandlerReturn> {
+        SLOT.with(|s| s.borrow_mut().take())
+    }
+}
+
+/// Crate-private protocol types, re-exported for the harness.
+pub use crate::handler::{
+    verif as toolkit, ConnectionDirection, Handler, HandlerIn, HandlerOut, NodeAddress,
+    NodeContact, WhoAreYouRef,
+};
+pub use crate::packet::{IdNonce, MessageNonce, PacketKind};
+pub use crate::rpc::{Message, Request, RequestBody, RequestId, Response, ResponseBody};
